@@ -17,12 +17,12 @@ ID = "C13"
 LEVEL = "exploration"
 DESIGN_REF = "DESIGN.md section 3, C13"
 RULE = (
-    "full product rows (1..4) x rotation-angle set x axis x position set x features on/off x path "
+    "full product rows (1..4; 5,6,7,10,11,12 on a reduced position/axis set) x rotation-angle set x axis x position set x features on/off x path "
     "(dataframe, parquet, csv x float_precision {None,2,4,6,8}, to_file/from_file x suffix {.csv,.parquet,.pq,.txt,none}); "
     "non-trivial = a non-identity orientation or a fractional position; distinct = distinct case tuples"
 )
 ASSUMPTIONS = [
-    "tables of 1..4 rows; orientation angles {0, 1e-8, 1e-4, 1, pi-1e-3, pi-1e-6, pi} about e_z and (1,2,-2)/3; positions up to 1e4",
+    "tables of 1..7 and 10..12 rows; orientation angles {0, 1e-8, 1e-4, 1, pi-1e-3, pi-1e-6, pi} about e_z and (1,2,-2)/3; positions up to 1e4",
     "orientation tolerance 2e-6 rad for exact formats (float32 rotation vectors), sqrt(3)*0.5*10^-p + 2e-6 for CSV with p decimals",
     "CSV features are compared by value after CSV typing (float32 comes back as float64, nulls stay nulls)",
 ]
@@ -34,7 +34,7 @@ PATHS = ["dataframe", "parquet", "csv:None", "csv:2", "csv:4", "csv:6", "csv:8",
 
 
 def AXES(tier):
-    return {"rows": [1, 2, 3, 4], "angle": ANGLES, "axis": AXES_, "positions": list(POSSETS), "features": [True, False], "path": PATHS}
+    return {"rows": [1, 2, 3, 4, 5, 6, 7, 10, 11, 12], "angle": ANGLES, "axis": AXES_, "positions": list(POSSETS), "features": [True, False], "path": PATHS}
 
 
 def cases(tier, seed):
@@ -47,6 +47,13 @@ def cases(tier, seed):
                         if tier == "quick" and n in (2, 4) and not (ps == "frac" and feats):
                             continue
                         out.append({"n": n, "angle": ai, "axis": ax, "pos": ps, "features": feats, "path": path})
+    # row counts around the number of pose columns (6) and of all columns (6 + 5 features): a table that is square in
+    # either sense is where a column/row orientation slip would hide
+    for n in (5, 6, 7, 10, 11, 12):
+        for ai in range(len(ANGLES)):
+            for feats in (True, False):
+                for path in PATHS:
+                    out.append({"n": n, "angle": ai, "axis": 1, "pos": "frac", "features": feats, "path": path})
     return out
 
 
